@@ -9,7 +9,7 @@ from gen_script import Gen
 
 PROP = "C10"
 NEEDS = ["model/Ebnf.v", "model/Lexer.v", "model/Viable.v", "gen/G4Data.v", "proofs/EbnfP.v", "proofs/LexerP.v", "proofs/LrecP.v",
-         "proofs/ViableP.v", "proofs/GrammarP.v", "gen/Facts.v", "proofs/FactsP.v", "proofs/ParserP.v", "proofs/CompleteP.v", "extract/Extract.v"]
+         "proofs/ViableP.v", "proofs/GrammarP.v", "gen/Facts.v", "proofs/FactsP.v", "proofs/ParserP.v", "proofs/CompleteP.v", "extract/Extract.v", "proofs/LexTotalP.v"]
 SYN = re.compile(r"Blackbird SyntaxError \(line (\d+):(\d+)\)")
 
 
@@ -67,6 +67,23 @@ def judge(res, model, impl, gr, text, tag, viable_available):
     except Exception as e:  # noqa: BLE001
         outcome, exc = type(e).__name__, e
     acc, errs, _, _ = impl.parse_verdict(ltext)
+    # the two entry points agree: the same characters in a FILE (with LF, CR LF, CR or CR CR LF line ends) give the same outcome and,
+    # for an error, the same message (line and column of the offending token) as the string
+    import zlib
+    if text.isascii() and zlib.crc32(text.encode()) % 3 == 0:
+        nl = ["\n", "\r\n", "\r", "\r\r\n"][zlib.crc32(text.encode()) // 3 % 4]
+        ftext = text.replace("\n", nl)
+        outs = []
+        for loader in (blackbird.loads, impl.load_via_file):
+            impl.reset_tables()
+            try:
+                loader(ftext)
+                outs.append("program")
+            except Exception as e:  # noqa: BLE001
+                outs.append("%s: %s" % (type(e).__name__, str(e)))
+        res.count("file-vs-string:%r" % nl)
+        if outs[0] != outs[1]:
+            return "load (file, line ends %r) and loads (same characters) disagree: %s | %s" % (nl, outs[1][:110], outs[0][:110])
     if gram:
         if not acc:
             return "a sentence of the grammar does not pass the syntax stage: %s" % (errs[:1],)
@@ -186,7 +203,7 @@ def run(tier, seed):
         verdicts = {}
         for t in bad:
             try:
-                mt = model.lex(t)
+                mt = model.lex(t if t.endswith(("\n", "\r")) or not t else t + "\n")      # load/loads terminate the last line
                 kinds = [k[0] for k in mt if k[0] not in gr.skip_types] + [0]
                 verdicts[t] = model.recognise(kinds)
             except fw.ModelError:
